@@ -35,7 +35,9 @@ RULE = ("one run = one version-2 certificate file, one root certificate and one 
         "CA), with one enclave answer altered on the link, altered at rest (any byte of message / "
         "signature / key / auth data / custom data / X.509 DER, re-parenting, re-signing by another key), "
         "wrong root, dishonest issuer; clock: inside all windows, 1 s before / exactly at / 1 s after "
-        "each notBefore and notAfter, far past, far future, non-overlapping windows; non-trivial = a "
+        "each notBefore and notAfter, far past, far future, non-overlapping windows; elements named like the "
+        "root of trust (stray copy / the certificate's own root under another verifier root); the same "
+        "certificate object asked again 0..2 times under other roots and at other instants; non-trivial = a "
         "certificate file existed; distinct = (class, alteration, element, clock class, verdict)")
 TIERS = {"quick": {"runs": 8000, "wall": 240}, "thorough": {"runs": 150000, "wall": 3000}}
 MUTANT_RUNS = 700
